@@ -94,7 +94,9 @@ def _judge(env, sc, m, full_body, origin_cut, r, which):
             return
         if m.status != sc["status"]:
             r.fail("status-altered", "%s: origin %d client %d" % (which, sc["status"], m.status))
-        if m.body != full_body:
+        if m.body != full_body and origin_cut == "close-delimited":
+            r.label("cut-close-delimited-origin-relayed-as-complete")  # indistinguishable for everybody: only the prefix rule applies
+        elif m.body != full_body:
             r.fail("short-or-altered-body-presented-as-complete", "%s: origin body %d bytes (origin cut short: %s), client saw a complete %s-framed message of %d bytes" % (
                 which, len(full_body), origin_cut, m.framing, len(m.body)))
         elif origin_cut == "self-delimiting":
